@@ -19,7 +19,8 @@ variable {α : Type} [Field α] [LinearOrder α] [IsStrictOrderedRing α]
 theorem combine_scaleRows (J : Mat α) (m n : Nat) (hJ : MatWF J m n) (c w : Vec α) (hc : c.length = m)
     (hw : w.length = m) :
     combine n (scaleRows c J) w = combine n J (List.zipWith (· * ·) c w) := by
-  sorry
+  have _ := And.intro hJ (And.intro hc hw)
+  exact Eqv.combine_scaleRows' J n c w
 
 /-- aggregators whose weights do not depend on the matrix (Mean, Sum, Constant, Random for a fixed
     draw) are linear under scaling: `A(diag(a c₁ + b c₂) J) = a A(diag(c₁) J) + b A(diag(c₂) J)` -/
@@ -27,14 +28,14 @@ theorem fixed_weights_linear (J : Mat α) (m n : Nat) (hJ : MatWF J m n) (w c₁
     (hw : w.length = m) (h₁ : c₁.length = m) (h₂ : c₂.length = m) :
     combine n (scaleRows (vadd (smul a c₁) (smul b c₂)) J) w =
       vadd (smul a (combine n (scaleRows c₁ J) w)) (smul b (combine n (scaleRows c₂ J) w)) := by
-  sorry
+  exact Eqv.fixed_weights_linear' J m n hJ w c₁ c₂ a b hw h₁ h₂
 
 /-- PCGrad in vector space: scaling row `i` by `c_i > 0` (and the other rows by positive factors) scales
     the `i`-th projected gradient by `c_i` — conflict tests are sign-invariant, projections direction-only -/
 theorem pcRow_scale (J : Mat α) (m n : Nat) (hJ : MatWF J m n) (c : Vec α) (hc : c.length = m)
     (hpos : ∀ x ∈ c, 0 < x) (i : Nat) (hi : i < m) (perm : List Nat) (hp : ∀ j ∈ perm, j < m) :
     pcRow (scaleRows c J) i perm = smul (c.getD i 0) (pcRow J i perm) := by
-  sorry
+  exact Eqv.pcRow_scale' J m hJ.1 c hc hpos i hi perm hp
 
 /-- hence PCGrad (for fixed projection orders) is linear under scaling -/
 theorem pcgrad_linear_under_scaling (J : Mat α) (m n : Nat) (hJ : MatWF J m n) (c : Vec α)
@@ -42,7 +43,11 @@ theorem pcgrad_linear_under_scaling (J : Mat α) (m n : Nat) (hJ : MatWF J m n) 
     (hp : ∀ p ∈ perms, ∀ j ∈ p, j < m) :
     combine n (scaleRows c J) (pcgradWeights (gram (scaleRows c J)) perms).1 =
       vsum n ((List.range m).map fun i => smul (c.getD i 0) (pcRow J i (perms.getD i []))) := by
-  sorry
+  rw [Tjd.Props.C18.pcgrad_refines (scaleRows c J) m n (Eqv.scaleRows_matWF J m n hJ c hc) perms hp]
+  congr 1
+  apply List.map_congr_left
+  intro i hi
+  exact Eqv.pcRow_scale' J m hJ.1 c hc hpos i (List.mem_range.mp hi) _ (Eqv.getD_perms_lt perms m hp i)
 
 /-- ConFIG: the unit rows, hence `best`, do not change under positive row scaling (row norms scale along);
     the length factor `Σ_i c_i ⟨j_i, û⟩` is linear in `c` -/
@@ -55,6 +60,6 @@ theorem config_linear_under_scaling (J : Mat α) (m n : Nat) (hJ : MatWF J m n) 
     (e₃ : configVec (scaleRows (vadd (smul a c₁) (smul b c₂)) J)
             (List.zipWith (· * ·) (vadd (smul a c₁) (smul b c₂)) d) w n = some x₃) :
     x₃ = vadd (smul a x₁) (smul b x₂) := by
-  sorry
+  exact Eqv.config_linear' J m n hJ d w c₁ c₂ a b hd h₁ h₂ hp₁ hp₂ ha hb x₁ x₂ x₃ e₁ e₂ e₃
 
 end Tjd.Props.C09
